@@ -238,3 +238,46 @@ cfbbuf_harness!(cfbbuf_enc_b1w1_n12, 16, C1w1, 1, 12, true, cfb_mode::BufEncrypt
 cfbbuf_harness!(cfbbuf_dec_b1w1_n12, 16, C1w1, 1, 12, false, cfb_mode::BufDecryptor<&C1w1>, decrypt);
 cfbbuf_harness!(cfbbuf_enc_b3w2_n11, 16, C3w2, 3, 11, true, cfb_mode::BufEncryptor<&C3w2>, encrypt);
 cfbbuf_harness!(cfbbuf_dec_b3w2_n11, 16, C3w2, 3, 11, false, cfb_mode::BufDecryptor<&C3w2>, decrypt);
+
+/// C11: requests near the end of the keystream (w = 32, 4-byte blocks): success iff the request fits;
+/// on failure buffer and position untouched; on success position advanced exactly.
+#[cfg_attr(kani, kani::proof)]
+#[cfg_attr(kani, kani::unwind(14))]
+pub fn ctr_limit_b4w2_n3() {
+    let c = L4w2::new(nd::any());
+    let iv: [u8; 4] = nd::any();
+    let mut s = ctr::Ctr32BE::<&L4w2>::from_core(ctr::CtrCore::inner_iv_init(&c, &iv.into()));
+    let limit: u64 = (u32::MAX as u64) * 4;
+    let back: u64 = nd::any::<u8>() as u64;
+    nd::assume(back <= 9);
+    let start = limit - back;
+    assert!(s.try_seek(start).is_ok());
+    let len: usize = nd::any::<u8>() as usize;
+    nd::assume(len <= 12);
+    let data: [u8; 12] = nd::any();
+    let mut buf = data;
+    let r = s.try_apply_keystream(&mut buf[..len]);
+    assert!(r.is_ok() == (len as u64 <= back));
+    if r.is_err() {
+        assert!(buf == data);
+        assert!(s.try_current_pos::<u64>().unwrap() == start);
+    } else if (len as u64) < back {
+        assert!(s.try_current_pos::<u64>().unwrap() == start + len as u64);
+    }
+}
+
+/// C11 (last sentence): a keystream block is never reused at a different position without an error.
+/// Seeking INTO block 2^32-1 (one past the last usable block) and then asking for data must fail
+/// somewhere.  On the pinned dependency `try_seek` succeeds and the data call silently reuses block 0
+/// (known finding F2: the unchecked call is StreamCipherCoreWrapper::try_seek in the `cipher` crate).
+pub fn ctr_seekpast_b4w2_n2() {
+    let c = L4w2::new(nd::any());
+    let iv: [u8; 4] = nd::any();
+    let mut s = ctr::Ctr32BE::<&L4w2>::from_core(ctr::CtrCore::inner_iv_init(&c, &iv.into()));
+    let limit: u64 = (u32::MAX as u64) * 4;
+    let off: u64 = 1 + (nd::any::<u8>() % 3) as u64;
+    let r1 = s.try_seek(limit + off);
+    let mut buf: [u8; 8] = nd::any();
+    let r2 = s.try_apply_keystream(&mut buf);
+    assert!(r1.is_err() || r2.is_err(), "seek past the keystream limit and a data call both succeeded: keystream block 0 is reused");
+}
